@@ -241,7 +241,9 @@ def check_proofs(prop, namespace="Shk"):
     cur = None
     text = out.replace("\n  ", " ")
     for m in re.finditer(r"'([^']+)' (depends on axioms: \[([^\]]*)\]|does not depend on any axioms)", text):
-        name = m.group(1).split(".")[-1]
+        full = m.group(1)
+        # the name relative to the property's namespace (theorems may have dotted names: `Grows.of_same`)
+        name = full[len(ns) + 1:] if full.startswith(ns + ".") else full.split(".")[-1]
         axs = [a.strip() for a in (m.group(3) or "").split(",") if a.strip()]
         res["axioms"][name] = axs
         extra = [a for a in axs if a not in ALLOWED_AXIOMS]
